@@ -285,10 +285,84 @@ def gen_cases(seed, chunk, n, tier):
     return out
 
 
+def all_groupings(ndim, max_groups=2):
+    """every ordered list of <= max_groups disjoint non-empty ordered groups with a multi-axis group"""
+    out = []
+    axes = list(range(ndim))
+    for r1 in range(1, ndim + 1):
+        for g1 in itertools.permutations(axes, r1):
+            if r1 >= 2:
+                out.append([list(g1)])
+            if max_groups >= 2:
+                rest = [a for a in axes if a not in g1]
+                for r2 in range(1, len(rest) + 1):
+                    for g2 in itertools.permutations(rest, r2):
+                        if r1 >= 2 or r2 >= 2:
+                            out.append([list(g1), list(g2)])
+    return out
+
+
+def exh_cases(seed, chunk, nchunks, tier):
+    """exhaustive small structures: every grouping of every small array, both strategies"""
+    from .. import small
+
+    out = []
+    k = -1
+    for sym, ndims in (("Z2", (2, 3)), ("U1", (2, 3))):
+        for ndim in ndims:
+            for fermi in (False, True):
+                if sym == "U1" and ndim == 3 and fermi:
+                    continue
+                for x in small.arrays(sym, ndim, fermi, max_charges=2, seed=seed):
+                    if not x.blocks:
+                        continue
+                    k += 1
+                    if k % nchunks != chunk:
+                        continue
+                    for groups in all_groupings(ndim):
+                        modes = ["insert"] if fermi else ["insert", "concat"]
+                        steps = []
+                        for m in modes:
+                            prm = {"groups": groups} if fermi else {"groups": groups, "mode": m}
+                            steps.append({"out": [f"f_{m}"], "op": "fuse", "in": ["x"], "params": prm})
+                            steps.append({"out": [f"u_{m}"], "op": "unfuse_all", "in": [f"f_{m}"], "params": {}})
+                        env = {"x": x}
+                        res, env2 = impl.run_prog(env, steps)
+                        orc = None
+                        if not all("ok" in r for r in res):
+                            orc = "fuse/unfuse raised: " + str([r.get("msg") for r in res if "raise" in r][:1])
+                        else:
+                            _, _, _, perm = fused_layout(groups, ndim)
+                            xt = x.transpose(tuple(perm))
+                            for m in modes:
+                                if not fermi:
+                                    orc = address_map_check(x, env2[f"f_{m}"], groups)
+                                if orc is None and not same_value(env2[f"u_{m}"], xt):
+                                    orc = "unfuse_all(fuse(x)) differs from the transposed original"
+                                if orc:
+                                    orc = f"mode {m}: {orc}"
+                                    break
+                            if orc is None and not fermi and not same_value(env2["f_insert"], env2["f_concat"]):
+                                orc = "insert and concat strategies give different results"
+                        out.append(dict(case=_mk_case(env, steps), impl=stream.strip_py(res), oracle=orc,
+                                        meta=dict(sym=sym, fermi=fermi, kind="exh-fuse", ndim=ndim),
+                                        nontrivial=True, op="fuse", triggers=[]))
+    return out
+
+
 def run(ctx):
     n = 5000 if ctx.tier == "quick" else 40000
     stream.run_stream(ctx, "fuse", "harness.props.c05", "gen_cases", n, per_chunk=60,
                       canon_kw=dict(drop_zero=True))
+    nch = 256
+    chunks = list(range(nch)) if ctx.tier == "thorough" else [(ctx.seed + 37 * j) % nch for j in range(4)]
+    stream.run_stream(ctx, "small", "harness.props.c05", "exh_cases", len(chunks), per_chunk=1,
+                      canon_kw=dict(drop_zero=True), chunk_ids=chunks, nchunks=nch)
+    if ctx.tier == "thorough":
+        ctx.exhaustive = True
+        ctx.notes.append("exhaustive sub-scope completed: all Z2/U1 arrays with 2-3 indices of <= 2 charges (size 1), all "
+                         "dualness patterns, charges, full / one-missing sparsity (fermionic: Z2 up to 3, U1 up to 2 indices): "
+                         "every ordered choice of <= 2 disjoint groups containing a multi-axis group, both strategies")
 
 
 def replay(ctx, payload):
